@@ -337,7 +337,7 @@ def rule_firstheart(ctx, R):
 # audited panic-capable sites of the parser (confirmed by reading; keyed without line numbers)
 AUDITED = {
     (PARSE, "Overflow(Sub):(SOME(str::find(K'형항핫흣흡흑혀하흐',ELEM<ENUMERATE(CHARS(P1))>.1)) Div K3),K6"): "t - 6 is evaluated only after t >= 6 (short-circuit &&); checked: dominated by that edge",
-    (PARSE, "BoundsCheck:K3,((SOME(str::find(K'형항핫흣흡흑혀하흐',ELEM<ENUMERATE(CHARS(P1))>.1)) Div K3..."): "max_pos has 3 entries; t = byte offset / 3 of a 9-character table of 3-byte characters, so 6 <= t <= 8 here (C04.TABLES checks the table)",
+    (PARSE, "BoundsCheck:K3,((SOME(str::find(K'형항핫흣흡흑혀하흐',ELEM<ENUMERATE(CHARS(P1))>.1)) Div K3...#ec855c"): "max_pos has 3 entries; t = byte offset / 3 of a 9-character table of 3-byte characters, so 6 <= t <= 8 here (C04.TABLES checks the table)",
     (PARSE, "Overflow(Sub):ELEM<ENUMERATE(CHARS(P1))>.0,PHI((ELEM<ENUMERATE(CHARS(P1))>.0 Add K1)|K0)"): "i - last_line_started: last_line_started is 0 or (index of an earlier line feed) + 1, hence <= i",
 }
 
@@ -377,6 +377,20 @@ def rule_total(ctx, R):
 
 
 def rule_tables(ctx, R):
+    # the Hangul syllable block: exactly U+AC00 ..= U+D7A3 (filler syllables are counted and kept in the raw text;
+    # anything else, including the Jamo Extended-B block right behind it, is not a syllable)
+    from . import evalo
+    hb = ctx.fb.bodies.get("hyeong::core::parse::is_hangul_syllable")
+    if R.anchor(hb is not None, "is_hangul_syllable", "parse::is_hangul_syllable"):
+        R.analyse(hb.name)
+        probes = {0x61: 0, 0x3131: 0, 0x1100: 0, 0xABFF: 0, 0xAC00: 1, 0xAC01: 1, 0xC5B4: 1, 0xD7A3: 1, 0xD7A4: 0, 0xD7B0: 0, 0xD7FF: 0, 0xE000: 0, 0x1F495: 0, 0x10FFFF: 0}
+        got = {}
+        for cp in probes:
+            try:
+                got[cp] = int(evalo.decide(hb, ctx.fb, [(lambda o: o == ("arg", 1), cp)]))
+            except evalo.Unknown as e:
+                got[cp] = "unknown: %s" % (e,)
+        R.check(got == probes, "tables:hangul_block", "is_hangul_syllable is true exactly on U+AC00..=U+D7A3 (decision table over the block boundaries and probes outside): %s" % {hex(k): v for k, v in got.items() if probes[k] != v}, hb.span)
     fb = ctx.fb
     b = fb.bodies.get(PARSE)
     if not R.anchor(b is not None, "parse", "parse::parse"):
@@ -492,6 +506,14 @@ class TreeModel:
             elif tgt == self.qarea:
                 self.cur[c] = "QLEAF"
         self.ok = sorted(self.cur.values()) == ["LEAF", "QLEAF"]
+        # the parser state: the named integer local switched on in the loop with the values 0 and 2 sharing a target
+        self.state = None
+        for gb in sorted(M.loop):
+            tt = b.blocks[gb]["term"]
+            if tt["k"] == "switch" and {v for v, _ in tt["arms"]} == {"0", "2"} and len({bb for _, bb in tt["arms"]}) == 1:
+                k = M.vars.root_key(tt["x"])
+                if k is not None and k[0] == "L" and k[1] in b.local_names():
+                    self.state = k[1]
 
     @staticmethod
     def _moves(b, bi, local):
@@ -544,6 +566,8 @@ def tree_effects(M, T, entry, exits, extra=None):
     b, fb, cfg = M.b, M.fb, M.cfg
     ov = {c: ("role", n) for c, n in T.cur.items()}
     ov.update({t: ("role", n) for t, n in T.names.items()})
+    if T.state is not None:
+        ov[T.state] = ("role", "STATE")
     rows = []
     for p in acyclic_paths(cfg, entry, exits, 4000):
         org = PathOriginsOv(b, fb, p, overrides=ov)
@@ -562,6 +586,8 @@ def tree_effects(M, T, entry, exits, extra=None):
                         effects.append("%s:=&%s" % (T.cur[pl["l"]], T.names[tgt]))
                     else:
                         effects.append("%s:=NODE(%s)" % (T.cur[pl["l"]], _tree_norm(r.of_origin(org.of_rvalue(s["r"], bi, si)))))
+                elif not pl["proj"] and T.state is not None and pl["l"] == T.state:
+                    effects.append("STATE:=%s" % _tree_norm(r.of_origin(org.of_rvalue(s["r"], bi, si))))
                 elif not pl["proj"] and pl["l"] in T.names:
                     effects.append("%s:=%s" % (T.names[pl["l"]], _tree_norm(r.of_origin(org.of_rvalue(s["r"], bi, si)))))
                 elif "deref" in pl["proj"] and "Area" in b.lty(pl["l"]):
@@ -573,7 +599,7 @@ def tree_effects(M, T, entry, exits, extra=None):
                     effects.append(_tree_norm(e))
             if i + 1 < len(p) and t["k"] == "switch":
                 lab = ev.generic_edge(bi, t, p[i + 1])
-                if lab and any(k in lab for k in ("LEAF", "AREA")):
+                if lab and any(k in lab for k in ("LEAF", "AREA", "STATE")):
                     guards.append(_tree_norm(lab))
         rows.append((tuple(sorted(set(guards))), tuple(sorted(effects))))
     return rows
@@ -602,6 +628,9 @@ TREE_SPEC = {
         (("SW[DISCR(QLEAF)]=0",), ("SLOT(QLEAF.right):=Box::new(AREA)", "EMIT(QAREA)")),
     },
 }
+# every area character leaves the parser in the area state (2)
+for _h in ("question", "bang", "heart"):
+    TREE_SPEC[_h] = {(g, e + ("STATE:=K2",)) for g, e in TREE_SPEC[_h]}
 TREE_SPEC = {h: {(g, tuple(sorted(e))) for g, e in rows} for h, rows in TREE_SPEC.items()}
 TREE_DESC = {
     "question": "`?`: the tree built so far becomes the left operand of a new ? node appended at the right end of the ?-spine (or the spine's first node); the !-tree starts empty again",
